@@ -61,6 +61,16 @@ class C11(F.Spec):
                 # a contact spike shortly before the pulse: the sampling timer is already running when the pulse starts
                 sp, gap = rng.choice([1, 2, 3]), rng.choice([3, 8, 13, 17])
                 ops += ["input %d 0" % pin, "adv %d" % sp, "input %d 1" % pin, "adv %d" % gap]
+            if not late and rng.random() < .3:
+                # contact bounce: the level alternates, every level lasts longer than one sampling period (so it is sampled)
+                # and less than 100 ms: six equal samples in a row cannot occur, nothing may be recognised
+                for _ in range(rng.randint(3, 9)):
+                    ops += ["input %d 0" % pin, "adv %d" % rng.choice([27, 33, 40, 55, 70, 85]),
+                            "input %d 1" % pin, "adv %d" % rng.choice([27, 33, 40, 55, 70, 85])]
+                    pulses.append(1)
+                for _ in range(30):
+                    ops.append("adv 10")
+                continue
             ops.append("input %d 0" % pin)
             # advance in 10 ms steps so that state changes are time-stamped to 10 ms
             left = w
